@@ -521,8 +521,10 @@ def cmdC16 (st : State) : Except String (List String) := do
         -- default first; the remaining settings as a set (the format does not fix their order).
         -- A feature declared without settings is boolean: the compiler supplies 0 (default) and 1.
         if declVals.isEmpty then
-          if gotVals.head? != some 0 then
-            out := out ++ [s!"FAIL feature {id}: declared without settings but Feat lists {gotVals} (default must be 0)"]
+          -- the two values 0 and 1, the declared default (0 when none is declared) first
+          let wantD := match f.dflt with | some d => d | none => 0
+          if gotVals.head? != some wantD ∨ gotVals.mergeSort (· ≤ ·) != [0, 1] then
+            out := out ++ [s!"FAIL feature {id}: declared without settings (default {wantD}) but Feat lists {gotVals}"]
         else if gotVals.head? != wantVals.head? ∨ gotVals.mergeSort (· ≤ ·) != wantVals.mergeSort (· ≤ ·) then
           out := out ++ [s!"FAIL feature {id}: settings in Feat {gotVals}, declared (default first) {wantVals}"]
         out := out ++ (resolve s!"feature {id}" e.label f.labels).map (fun m => "FAIL " ++ m)
